@@ -23,6 +23,10 @@ def check(ctx):
     dispatch.analyze(ctx, RULES)
     classes.analyze(ctx, {"C15.e"})
     panics.analyze(ctx, {"C15.h"})
+    # an unsupported class is rejected when its predicate is created, and predicates are created per *registered* class:
+    # the registry may fold two classes into one entry only if they mean the same (C02.f), else the second is never converted
+    from . import sharing
+    sharing.analyze(ctx, {"C02.f"})
 
     # ---- C15.d every entry point parses and converts; every error of the result is re-raised
     tp = F.fn(r"MultiPatternNfa::try_from_patterns$")
